@@ -1135,6 +1135,14 @@ impl<T: TraceStorage> ChainProcess<T> {
                         .init_position(&mut rng, &mut initval)
                         .context("Failed to generate a new initial position")?;
                     if let Err(err) = sampler.set_position(&initval) {
+                        // Another initial point can only help if this one was bad. An
+                        // unrecoverable error of the log density ends the chain.
+                        if matches!(
+                            err.downcast_ref::<crate::NutsError>(),
+                            Some(crate::NutsError::LogpFailure(_))
+                        ) {
+                            return Err(err.context("Unrecoverable error during initialization"));
+                        }
                         error = Some(err);
                         continue;
                     }
